@@ -76,7 +76,7 @@ type Run struct {
 func Execute(c Case) (*Run, error) {
 	r, cleanup := fsx.Scratch("pack-")
 	run := &Run{R: r, Src: filepath.Join(r, "src"), Vars: map[string]string{"R": r}, Cleanup: cleanup}
-	tr := c.Tree
+	tr := fsx.RawNames(c.Tree)
 	if c.Rules != nil {
 		tr = append(fsx.Tree{{Path: ".terraformignore", Kind: "file", Content: *c.Rules, Mode: 0644, Sec: 1500000000}}, tr...)
 	}
@@ -138,7 +138,7 @@ type LinkInfo struct {
 
 func (run *Run) Links(c Case) []LinkInfo {
 	var out []LinkInfo
-	for _, n := range c.Tree {
+	for _, n := range fsx.RawNames(c.Tree) {
 		if n.Kind != "symlink" {
 			continue
 		}
@@ -194,7 +194,7 @@ func ClimbsAbove(name, target string) bool {
 
 // Gen draws a case.
 func Gen(t *rapid.T, outLinks bool) Case {
-	cfg := tgen.Config{MaxNodes: 16, Links: true, OutLinks: outLinks, Special: true, IgnoreNames: true, HardLinks: true}
+	cfg := tgen.Config{MaxNodes: 16, Links: true, OutLinks: outLinks, Special: true, IgnoreNames: true, HardLinks: true, Awkward: true}
 	if outLinks {
 		cfg.LinkPct = 38
 	}
